@@ -34,7 +34,11 @@ def shrink_streams(tier):
 
 
 def run(tier):
-    return k2check.run("C10", tier, profile="limits", extra_streams=shrink_streams(tier))
+    # the concurrent face of "explicit resize requests are honoured": requests queued behind doublings, behind each other and
+    # behind locked sections that change the hashpower; only dropped / unexplained answers are judged here (k3_only_own)
+    return k2check.run("C10", tier, profile="limits", extra_streams=shrink_streams(tier), k3_only_own=True,
+                       k3_programs=["find-vs-rehash", "two-resizers", "rehash-up-down", "reserve-vs-ops", "rehash-vs-doubling",
+                                    "section-resize-vs-rehash"])
 
 
 def replay(path):
